@@ -82,3 +82,12 @@ PROP = {
         "design_ref": "DESIGN.md §8 C10, Appendix E.2",
     },
 }
+
+# ---- scenarios judged by Go-side monitors only (the Lean driver answers the constant verdict) ----
+PROP["assumptions"] += [
+    "monitor-only scenarios (no model run behind them; the theorems that state the same facts are race_free / "
+    "linearizability of the LTS): `cc qvd` (a literal-path Query never visits a leaf whose Delete has returned), `cc avd` "
+    "(an Add over an existing leaf is not lost against a conditional delete), `cc cdel`; `cc pwd` (a conditional delete "
+    "whose condition panics: the model leaves the tree as it was — the callback is shown the first value before anything "
+    "is unlinked)",
+]
